@@ -363,6 +363,9 @@ def run(chk):
     rej("C01.rej.linelong", fd, [("len(line) > $L", True, "complete line longer than its limit")], ALL, "start/header line too long")
     rej("C01.rej.toomany", fd, [("len(self._lines) > self.max_headers", True, "too many header lines")], ALL, "too many headers", extra=[("len(line) > $L", False)])
     rej("C01.rej.barelf", fd, [("b'\\n' in self._tail", True, "bare LF in a line without CRLF")], ALL, "bare LF in start line / header")
+    # ... and in a *complete* start line too, otherwise `GET /a\nb HTTP/1.1` is refused only if a read happens to end between the LF and the
+    # line's CRLF (header lines are covered by the control-character check of parse_headers)
+    rej("C01.rej.barelf", fd, [("b'\\n' in line", True, "bare LF in a complete start line")], ALL, "bare LF in a complete start line", extra=[("self._lines", False), ("$S == b'\\n'", False)])  # strict mode: the separator is CRLF
     rej("C01.rej.taillong", fd, [("len(self._tail) - self._tail.endswith(b'\\r') > $L", True, "buffered partial line too long")], ALL, "buffered partial line too long", extra=[("b'\\n' in self._tail", False)])
     rej("C01.rej.wskey1", fd, [("hdrs.SEC_WEBSOCKET_KEY1 in $H", True, "hixie-76 key")], ALL, "Sec-WebSocket-Key1",
         extra=[("len(line) > $L", False), ("len(self._lines) > self.max_headers", False)])
@@ -376,9 +379,9 @@ def run(chk):
     rej("C01.rej.host", pm, [("version_o == HttpVersion11", True, "HTTP/1.1"), ("hdrs.HOST in $H", False, "no Host")], ALL, "missing Host in HTTP/1.1",
         extra=[("$R.fullmatch($M)", True), ("$R.fullmatch(version) is None", False)])
     # chunked body
-    rej("C01.rej.chunkline", pp, [("pos > self._max_line_size", True, "chunk-size line too long")], ALL, "chunk-size line too long")
-    rej("C01.rej.chunkext", pp, [("b'\\n' in chunk[$I:pos]", True, "LF inside chunk extension")], ALL, "bare LF in chunk extension", extra=[("pos > self._max_line_size", False), ("$I < 0", False)])
-    rej("C01.rej.chunkhex", pp, [("re.fullmatch(HEXDIGITS, size_b)", False, "size is not hex")], ALL, "malformed chunk size", extra=[("pos > self._max_line_size", False)])
+    rej("C01.rej.chunkline", pp, [([("pos > self._max_line_size", True), ("line_len > self._max_line_size", True)], True, "chunk-size line too long")], ALL, "chunk-size line too long")
+    rej("C01.rej.chunkext", pp, [("b'\\n' in chunk[$I:pos]", True, "LF inside chunk extension")], ALL, "bare LF in chunk extension", extra=[("pos > self._max_line_size", False), ("line_len > self._max_line_size", False), ("$I < 0", False)])
+    rej("C01.rej.chunkhex", pp, [("re.fullmatch(HEXDIGITS, size_b)", False, "size is not hex")], ALL, "malformed chunk size", extra=[("pos > self._max_line_size", False), ("line_len > self._max_line_size", False)])
     n_lf = 0
     for n2, cls in K.raises_in(pp.node):
         clp = PC.pc(n2)
